@@ -1,5 +1,273 @@
 /-
-C02 — property theorems (stub; nothing proved yet).
+C02 — reported precipitate statistics are moments of the size distribution; the number density
+changes only by nucleation and by loss through the ends of the grid.
+Theorems about KawinV.MB (mass balance), KawinV.PBM (transport) and KawinV.PSD (state → stored PSD).
 -/
+import KawinV.Model.PSDUpdate
+import KawinV.Props.C07
+import Mathlib.Tactic.Ring
+import Mathlib.Tactic.Linarith
+import Mathlib.Tactic.FieldSimp
+import Mathlib.Algebra.Order.Field.Basic
+import Mathlib.Algebra.BigOperators.Group.List.Basic
+import Mathlib.Algebra.Order.BigOperators.Group.Finset
+import Mathlib.Algebra.BigOperators.Ring.Finset
+
+set_option linter.unusedSectionVars false
+set_option linter.unusedVariables false
+set_option linter.unusedSimpArgs false
+
 namespace KawinV.Props.C02
+open KawinV KawinV.MB KawinV.PBM KawinV.PSD Finset
+
+variable {α : Type} [Field α] [LinearOrder α] [IsStrictOrderedRing α]
+
+/-! ### reported statistics are moments of the state of that step -/
+
+/-- **density / mean radius / fraction**: for a populated phase the reported number density is the
+zeroth moment, the mean radius the first/zeroth moment ratio, the volume fraction the scaled third
+moment capped at 1 (or the sticky 1). -/
+theorem recorded_stats_are_moments (nElem : Nat) (minDens : α) (p : PhaseIn α)
+    (hpop : ¬ moment 0 p.N p.R < minDens) :
+    (phaseBalance nElem minDens p).dens = moment 0 p.N p.R ∧
+    (phaseBalance nElem minDens p).ravg = moment 1 p.N p.R / moment 0 p.N p.R ∧
+    (phaseBalance nElem minDens p).volFrac =
+      (if isOne p.prevVolFrac then 1 else
+        if p.volRatio * p.volumeFactor * moment 3 p.N p.R < 1
+        then p.volRatio * p.volumeFactor * moment 3 p.N p.R else 1) := by
+  unfold phaseBalance rawVolFrac
+  simp [hpop]
+
+/-- below the density floor the density is still the zeroth moment; radius and fraction are 0 -/
+theorem recorded_stats_empty (nElem : Nat) (minDens : α) (p : PhaseIn α)
+    (h : moment 0 p.N p.R < minDens) :
+    (phaseBalance nElem minDens p).dens = moment 0 p.N p.R ∧
+    (phaseBalance nElem minDens p).ravg = 0 ∧ (phaseBalance nElem minDens p).volFrac = 0 := by
+  unfold phaseBalance; simp [h]
+
+/-- the zeroth moment is the plain sum of the populations -/
+theorem moment_zero_eq_sum (N R : List α) (h : N.length = R.length) : moment 0 N R = N.sum := by
+  unfold moment
+  induction N generalizing R with
+  | nil => simp
+  | cons n ns ih =>
+    cases R with
+    | nil => simp at h
+    | cons r rs =>
+      have := ih rs (by simpa using h)
+      simp only [npow, mul_one] at this
+      simp only [List.zipWith_cons_cons, List.sum_cons, npow, mul_one, this]
+
+/-! ### stored PSD = truncation of the state -/
+
+/-- **PSD ≥ 0**: whatever the state (even negative entries from an oversized step), the stored
+distribution after `UpdatePBMEuler` is non-negative. -/
+theorem trunc_nonneg (x : List α) : ∀ v ∈ trunc x, 0 ≤ v := by
+  intro v hv
+  unfold trunc at hv
+  obtain ⟨a, _, rfl⟩ := List.mem_map.mp hv
+  split
+  · exact le_refl _
+  · next h => exact le_trans zero_le_one (not_lt.mp h)
+
+theorem trunc_length (x : List α) : (trunc x).length = x.length := by simp [trunc]
+
+/-- **documented slack**: truncation removes less than one particle per class:
+`0 ≤ Σx − Σ(trunc x) ≤ #classes` for a non-negative state. -/
+theorem trunc_sum_bounds (x : List α) (hx : ∀ v ∈ x, 0 ≤ v) :
+    (trunc x).sum ≤ x.sum ∧ x.sum - (trunc x).sum ≤ (x.length : α) := by
+  induction x with
+  | nil => simp [trunc]
+  | cons a as ih =>
+    have ha : 0 ≤ a := hx a (by simp)
+    obtain ⟨h1, h2⟩ := ih (fun v hv => hx v (by simp [hv]))
+    simp only [trunc, List.map_cons, List.sum_cons, List.length_cons, Nat.cast_succ] at *
+    by_cases h : a < 1
+    · simp only [h, if_true]
+      constructor <;> linarith
+    · simp only [h, if_false]
+      constructor <;> linarith
+
+theorem npow_nonneg (r : α) (hr : 0 ≤ r) (k : Nat) : 0 ≤ npow r k := by
+  induction k with
+  | zero => simp [npow]
+  | succ k ihk =>
+    cases k with
+    | zero => simpa [npow] using hr
+    | succ k => simp only [npow]; exact mul_nonneg ihk hr
+
+theorem sum_map_range (f : Nat → α) (n : Nat) :
+    ((List.range n).map f).sum = ∑ i ∈ range n, f i := by
+  induction n with
+  | zero => simp
+  | succ n ih => rw [List.range_succ, List.map_append, List.sum_append, Finset.sum_range_succ, ih]; simp
+
+theorem list_sum_eq_range (xs : List α) : xs.sum = ∑ i ∈ range xs.length, xs.getD i 0 := by
+  rw [← sum_map_range]
+  congr 1
+  apply List.ext_getElem
+  · simp
+  · intro i h1 h2; simp [List.getD_eq_getElem?_getD, List.getElem?_eq_getElem h1]
+
+/-- the same for any moment with non-negative class radii: truncation never increases a moment -/
+theorem trunc_moment_le (k : Nat) (x R : List α) (hx : ∀ v ∈ x, 0 ≤ v) (hR : ∀ r ∈ R, 0 ≤ r) :
+    moment k (trunc x) R ≤ moment k x R := by
+  unfold moment trunc
+  induction x generalizing R with
+  | nil => simp
+  | cons a as ih =>
+    cases R with
+    | nil => simp
+    | cons r rs =>
+      have ha : 0 ≤ a := hx a (by simp)
+      have hr : 0 ≤ r := hR r (by simp)
+      have hrk : 0 ≤ npow r k := npow_nonneg r hr k
+      have := ih rs (fun v hv => hx v (by simp [hv])) (fun v hv => hR v (by simp [hv]))
+      simp only [List.map_cons, List.zipWith_cons_cons, List.sum_cons]
+      by_cases h : a < 1
+      · simp only [h, if_true, zero_mul]
+        have : 0 ≤ a * npow r k := mul_nonneg ha hrk
+        linarith
+      · simp only [h, if_false]; linarith
+
+/-! ### the density budget of one accepted step -/
+
+/-- **density budget**: after the solver's update with any face fluxes `nf` (the corrected fluxes of
+the last derivative evaluation — Euler, and also what the RK4 glue ends up using), the total
+number of particles changes by exactly `dt·(nf 0 − nf n + nucRate)`. -/
+theorem density_step (n : Nat) (x nf : Nat → α) (k : Nat) (hk : k < n) (r dt : α) :
+    ∑ i ∈ range n, eulerUpdate x (dXdt nf k r) dt i
+      = ∑ i ∈ range n, x i + dt * (nf 0 - nf n + r) := by
+  unfold eulerUpdate
+  rw [sum_add_distrib, ← sum_mul, C07.budget n nf k hk r]
+  ring
+
+/-- **only nucleation adds**: with one-sided end fluxes (nothing enters through either end, C07)
+the density grows by at most `nucRate·dt`; the rest of the change is loss through the smallest
+class (dissolution) and through the top face. -/
+theorem density_step_le (n : Nat) (x nf : Nat → α) (k : Nat) (hk : k < n) (r dt : α)
+    (hdt : 0 ≤ dt) (h0 : nf 0 ≤ 0) (hn : 0 ≤ nf n) :
+    ∑ i ∈ range n, eulerUpdate x (dXdt nf k r) dt i ≤ ∑ i ∈ range n, x i + r * dt := by
+  rw [density_step n x nf k hk r dt]
+  have : dt * (nf 0 - nf n) ≤ 0 := mul_nonpos_of_nonneg_of_nonpos hdt (by linarith)
+  nlinarith
+
+/-- with zero nucleation rate the density never increases in the transport step -/
+theorem density_step_no_nucleation (n : Nat) (x nf : Nat → α) (k : Nat) (hk : k < n) (dt : α)
+    (hdt : 0 ≤ dt) (h0 : nf 0 ≤ 0) (hn : 0 ≤ nf n) :
+    ∑ i ∈ range n, eulerUpdate x (dXdt nf k 0) dt i ≤ ∑ i ∈ range n, x i := by
+  simpa using density_step_le n x nf k hk 0 dt hdt h0 hn
+
+/-- the budget for the model's own (uncorrected or corrected) PBM fluxes: instantiates the
+hypotheses from C07 — `netFlux 0 ≤ 0 ≤ netFlux n` for a non-negative distribution. -/
+theorem density_step_pbm (n : Nat) (x flux dR : Nat → α) (k : Nat) (hk : k < n) (r dt : α)
+    (hdt : 0 < dt) (hx : ∀ i, 0 ≤ x i) (hdR : ∀ i, 0 < dR i) :
+    ∑ i ∈ range n, eulerUpdate x (dXdt (correctedFlux n dt x (netFlux n flux x dR)) k r) dt i
+      ≤ ∑ i ∈ range n, x i + r * dt := by
+  apply density_step_le n x _ k hk r dt hdt.le
+  · exact C07.corrected_zero_nonpos n dt x _ hdt hx (C07.netFlux_zero_nonpos n flux x dR hx hdR)
+  · exact C07.corrected_last_nonneg n dt x _ hdt hx (C07.netFlux_last_nonneg n flux x dR hx hdR)
+
+/-! ### zeroing and extension steps -/
+
+/-- zeroing classes (unstable / below the minimum radius) never increases the density -/
+theorem processX_sum_le (k : Nat) (minRadius : α) (x R : List α) (hx : ∀ v ∈ x, 0 ≤ v)
+    (hlen : x.length = R.length) :
+    (processX k minRadius x R).sum ≤ x.sum := by
+  unfold processX
+  have key : ∀ (l : List α) (m : List α), l.length = m.length →
+      (∀ i (h : i < l.length) (h' : i < m.length), 0 ≤ l[i] ∧ l[i] ≤ m[i]) → l.sum ≤ m.sum := by
+    intro l
+    induction l with
+    | nil => intro m hm _; cases m <;> simp_all
+    | cons a as ih =>
+      intro m hm h
+      cases m with
+      | nil => simp at hm
+      | cons b bs =>
+        simp only [List.sum_cons]
+        have h0 := h 0 (by simp) (by simp)
+        have := ih bs (by simpa using hm) (fun i hi hi' => by
+          have := h (i+1) (by simpa using hi) (by simpa using hi'); simpa using this)
+        simp at h0; linarith
+  apply key
+  · simp [hlen]
+  · intro i h h'
+    simp only [List.getElem_mapIdx, List.getElem_zipWith]
+    have hxi : 0 ≤ x[i]'(by simpa using h') := hx _ (List.getElem_mem _)
+    constructor
+    · split
+      · exact le_refl _
+      · split <;> [exact le_refl _; exact hxi]
+    · split
+      · exact hxi
+      · split <;> [exact hxi; exact le_refl _]
+
+/-- **extension steps**: appending empty classes leaves every moment unchanged -/
+theorem moment_append_zeros (k m : Nat) (N R R' : List α) (h : N.length = R.length)
+    (hR' : R'.length = m) :
+    moment k (N ++ List.replicate m 0) (R ++ R') = moment k N R := by
+  unfold moment
+  rw [List.zipWith_append h, List.sum_append]
+  have : (List.zipWith (fun n r => n * npow r k) (List.replicate m (0:α)) R').sum = 0 := by
+    subst hR'
+    induction R' with
+    | nil => simp
+    | cons r rs ih => simp [List.replicate_succ, ih]
+  rw [this, add_zero]
+
+/-! ### the whole step, all steps except re-mesh steps (`…_partial`)
+
+The re-mesh operation (`changeSizeClasses`) rescales to preserve the third moment only; the
+number density is NOT preserved (known finding F-C02-remesh, see known_findings.txt and
+`KawinV.Props.C08`).  The chain below is therefore stated for steps without a re-mesh. -/
+
+/-- **density_step_partial**: one accepted step without re-mesh.  `x` is the stored (non-negative)
+PSD at the start of the step, the new state is the Euler update with one-sided face fluxes, then
+`_processX` zeroing; the density recorded for the new slice is at most the old stored density plus
+`nucRate·dt`; the stored PSD after truncation is again non-negative and not larger. -/
+theorem density_step_partial (xs : List α) (R : List α) (nf : Nat → α) (kn : Nat) (r dt minRadius : α)
+    (kz : Nat) (hk : kn < xs.length) (hlen : xs.length = R.length)
+    (hdt : 0 ≤ dt) (h0 : nf 0 ≤ 0) (hn : 0 ≤ nf xs.length)
+    (hnew : ∀ i, i < xs.length → 0 ≤ eulerUpdate (fun i => xs.getD i 0) (dXdt nf kn r) dt i) :
+    let x' := (List.range xs.length).map (eulerUpdate (fun i => xs.getD i 0) (dXdt nf kn r) dt)
+    (processX kz minRadius x' R).sum ≤ xs.sum + r * dt ∧
+    (trunc (processX kz minRadius x' R)).sum ≤ xs.sum + r * dt ∧
+    (∀ v ∈ trunc (processX kz minRadius x' R), 0 ≤ v) := by
+  intro x'
+  have hx'pos : ∀ v ∈ x', 0 ≤ v := by
+    intro v hv
+    obtain ⟨i, hi, rfl⟩ := List.mem_map.mp hv
+    exact hnew i (by simpa using hi)
+  have hsum : x'.sum ≤ xs.sum + r * dt := by
+    have h1 : x'.sum = ∑ i ∈ range xs.length, eulerUpdate (fun i => xs.getD i 0) (dXdt nf kn r) dt i :=
+      sum_map_range _ _
+    rw [h1, list_sum_eq_range xs]
+    exact density_step_le xs.length _ nf kn hk r dt hdt h0 hn
+  have hlen' : x'.length = R.length := by simp [x', hlen]
+  have hp := processX_sum_le kz minRadius x' R hx'pos hlen'
+  have hppos : ∀ v ∈ processX kz minRadius x' R, 0 ≤ v := by
+    intro v hv
+    unfold processX at hv
+    obtain ⟨i, hi, rfl⟩ := List.mem_mapIdx.mp hv
+    split
+    · exact le_refl _
+    · simp only [List.getElem_zipWith]
+      split
+      · exact le_refl _
+      · exact hx'pos _ (List.getElem_mem _)
+  refine ⟨le_trans hp hsum, ?_, trunc_nonneg _⟩
+  exact le_trans (trunc_sum_bounds _ hppos).1 (le_trans hp hsum)
+
+/-! ### non-vacuity -/
+
+example : (∀ v ∈ ([5, 0, 7/2] : List ℚ), 0 ≤ v) ∧ trunc ([5, 1/2, 7/2] : List ℚ) = [5, 0, 7/2] := by
+  constructor
+  · intro v hv; simp at hv; rcases hv with rfl | rfl | rfl <;> norm_num
+  · simp [trunc]; norm_num
+
+/-- a concrete step meeting the hypotheses of `density_step_le` (dissolution through class 0) -/
+example : (0:ℚ) ≤ 1 ∧ (fun j : Nat => if j = 0 then (-2:ℚ) else 0) 0 ≤ 0 ∧
+    (0:ℚ) ≤ (fun j : Nat => if j = 0 then (-2:ℚ) else 0) 3 := by norm_num
+
 end KawinV.Props.C02
